@@ -542,10 +542,10 @@ fn exec(j: &Job) -> (Vec<(String, String)>, String) {
             }
         }
     }
+    // a job that takes long but finishes is not a violation of totality (hangs are caught by the parent's
+    // watchdog); the slowest ones are reported in the distribution
     let dt = t0.elapsed().as_secs_f64();
-    if dt > 20.0 {
-        fails.push(("slow".to_string(), format!("{dt:.1}s for {} bytes", j.input.len())));
-    }
+    let label = if dt > 10.0 { format!("{label} (took more than 10 s)") } else { label };
     (fails, label)
 }
 
@@ -563,35 +563,66 @@ fn mix(i: u64) -> u64 {
     z ^ (z >> 31)
 }
 
+/// `d` nested block levels written one line per level, indentation growing by `step` (O(d^2) bytes)
+fn nest_lines(d: usize, step: usize, line: impl Fn(usize) -> String, innermost: &str) -> String {
+    let mut s = String::new();
+    for i in 0..d {
+        s.push_str(&" ".repeat(i * step));
+        s.push_str(&line(i));
+        s.push('\n');
+    }
+    s.push_str(&" ".repeat(d * step));
+    s.push_str(innermost);
+    s.push('\n');
+    s
+}
+
+/// The parser caps FLOW nesting at 255 levels, so depth has to come from block style.
 fn deep_inputs(d: usize) -> Vec<(&'static str, String)> {
     let mut v: Vec<(&'static str, String)> = Vec::new();
-    v.push(("flow-seq", format!("{}{}", "[".repeat(d), "]".repeat(d))));
-    v.push(("flow-seq-open", "[".repeat(d)));
-    v.push(("flow-map", format!("{}1{}", "{a: ".repeat(d), "}".repeat(d))));
     v.push(("block-seq", format!("{}x", "- ".repeat(d))));
     v.push(("explicit-keys", format!("{}x", "? ".repeat(d))));
-    v.push(("anchored-nest", format!("{}{}", (0..d).map(|i| format!("&a{i} [")).collect::<String>(), "]".repeat(d))));
-    v.push(("alias-of-deep", format!("a: &a {}{}\nb: *a\n", "[".repeat(d.saturating_sub(2)), "]".repeat(d.saturating_sub(2)))));
-    v.push(("merge-nest", format!("{}{{}}{}", "{<<: ".repeat(d), "}".repeat(d))));
-    v.push(("complex-key", format!("? {}{}\n: 1\n", "[".repeat(d.saturating_sub(1)), "]".repeat(d.saturating_sub(1)))));
-    v.push(("complex-key-map", format!("? {}1{}\n: 1\n", "{a: ".repeat(d.saturating_sub(1)), "}".repeat(d.saturating_sub(1)))));
-    v.push(("rec-enum", format!("{}{{Leaf: 1}}{}", "{Node: [".repeat(d / 2), "]}".repeat(d / 2))));
-    v.push(("deny-box", format!("{}null{}", "{k: 1, opt: ".repeat(d), "}".repeat(d))));
-    v.push(("seq-of-maps", format!("{}1{}", "[{a: ".repeat(d / 2), "}]".repeat(d / 2))));
-    v.push(("tagged-nest", format!("{}{}", "!t [".repeat(d), "]".repeat(d))));
+    v.push(("complex-key-deep-seq", format!("? {}x\n: 1\n", "- ".repeat(d.saturating_sub(1)))));
+    v.push(("alias-of-deep", format!("a: &a\n  {}x\nb: *a\nc: *a\n", "- ".repeat(d.saturating_sub(2)))));
+    v.push(("flow-seq (parser limit)", format!("{}{}", "[".repeat(d), "]".repeat(d))));
+    v.push(("flow-map (parser limit)", format!("{}1{}", "{a: ".repeat(d), "}".repeat(d))));
+    v.push(("seq-in-flow-in-seq", format!("{}[[[[x]]]]", "- ".repeat(d.saturating_sub(4)))));
+    if d == 2000 {
+        // depth reached through alias replay only: each anchor wraps an alias of the previous one in 400 block
+        // sequence levels; 40 links expand to 16 000 levels, far beyond max_depth, with 400 levels in the text
+        let mut t = format!("a0: &a0\n  {}x\n", "- ".repeat(400));
+        for k in 1..40 {
+            t.push_str(&format!("a{k}: &a{k}\n  {}*a{}\n", "- ".repeat(400), k - 1));
+        }
+        v.push(("alias-depth-chain", t));
+        let mut t = format!("a0: &a0\n{}", nest_lines(300, 1, |_| "m:".to_string(), "k: v").lines().map(|l| format!("  {l}\n")).collect::<String>());
+        for k in 1..20 {
+            t.push_str(&format!("a{k}: &a{k}\n{}", nest_lines(300, 1, |_| "m:".to_string(), &format!("k: *a{}", k - 1)).lines().map(|l| format!("  {l}\n")).collect::<String>()));
+        }
+        v.push(("alias-depth-chain-maps", t));
+    }
     if d <= 2100 {
-        let mut s = String::new();
-        for i in 0..d {
-            s.push_str(&" ".repeat(i));
-            s.push_str("a:\n");
+        v.push(("block-map", nest_lines(d, 1, |_| "a:".to_string(), "x")));
+        v.push(("block-seq-lines", nest_lines(d, 1, |_| "-".to_string(), "- x")));
+        v.push(("anchored-nest", nest_lines(d, 1, |i| format!("- &a{i}"), "- x")));
+        v.push(("merge-nest", nest_lines(d, 1, |_| "<<:".to_string(), "k: v")));
+        v.push(("map-seq-alternating", nest_lines(d / 2, 2, |_| "- a:".to_string(), "- x")));
+        v.push(("rec-enum", nest_lines(d / 2, 2, |_| "- Node:".to_string(), "- Leaf: 1")));
+        v.push(("rec-enum-root", format!("Node:\n{}", nest_lines(d / 2 - 1, 2, |_| "- Node:".to_string(), "- Leaf: 1"))));
+        {
+            let mut t = String::new();
+            for i in 0..d {
+                t.push_str(&" ".repeat(i));
+                t.push_str("k: 1\n");
+                t.push_str(&" ".repeat(i));
+                t.push_str("opt:\n");
+            }
+            t.push_str(&" ".repeat(d));
+            t.push_str("k: 1\n");
+            v.push(("deny-box", t));
         }
-        v.push(("block-map", s));
-        let mut s = String::new();
-        for i in 0..d {
-            s.push_str(&" ".repeat(i));
-            s.push_str("-\n");
-        }
-        v.push(("block-seq-lines", s));
+        v.push(("anchored-maps-then-aliases", format!("{}\nz: [*m0, *m{}]\n", nest_lines(d.min(1500), 1, |i| format!("m: &m{i}"), "k: v").trim_end(), d.min(1500) - 1)));
+        v.push(("tagged-nest", nest_lines(d, 1, |_| "- !t".to_string(), "- x")));
     }
     v
 }
@@ -698,9 +729,13 @@ fn for_each_job(tier: Tier, seed: u64, f: &mut dyn FnMut(usize, Job) -> bool) {
     let depths: &[usize] = if quick { &[1990, 1999, 2000, 2001, 2500, 20_000] } else { &[1000, 1900, 1990, 1998, 1999, 2000, 2001, 2002, 2100, 4000, 20_000, 200_000] };
     for &d in depths {
         for (name, text) in deep_inputs(d) {
-            let _ = name;
+            // shapes whose cost grows with the square or cube of the depth run under two targets and one entry point
+            let costly = matches!(name, "merge-nest" | "explicit-keys" | "complex-key-deep-seq" | "anchored-nest" | "anchored-maps-then-aliases");
             for (k, &ty) in DEEP_TYPES.iter().enumerate() {
-                let entries: &[u8] = if quick { &[0, 3, 7] } else { &[0, 1, 2, 3, 5, 7, 8, 10] };
+                if costly && !(ty == 0 || ty == 29) {
+                    continue;
+                }
+                let entries: &[u8] = if costly { &[0] } else if quick { &[0, 3, 7] } else { &[0, 1, 2, 3, 5, 7, 8, 10] };
                 for &entry in entries {
                     let opts = DEFAULT_DEPTH_OPTS[(k + entry as usize + d) % DEFAULT_DEPTH_OPTS.len()];
                     emit!(Job { input: text.clone().into_bytes(), entry, opts, ty, fam: "deep", heavy: true });
@@ -1106,6 +1141,33 @@ pub fn run(ctx: &mut Ctx) {
         }
     }
     ctx.count(&format!("jobs wall {:.0}s", t0.elapsed().as_secs_f64()));
+
+    // ---- debug-profile stack probes: the largest nesting depth <= max_depth of the default budget that an
+    // unoptimised build survives on an 8 MiB stack (the probe binary is built by ./check in the dev profile)
+    let probe = std::env::current_exe().ok().and_then(|p| p.parent().and_then(|q| q.parent()).map(|q| q.join("debug").join("stack_probe")));
+    if let Some(probe) = probe.filter(|p| p.exists()) {
+        let mut any = false;
+        for (shape, target) in [("seq", "value"), ("map", "value"), ("seq", "ignored"), ("rec", "rec"), ("key", "value")] {
+            let survives = |d: usize| -> bool { Command::new(&probe).args([d.to_string(), shape.to_string(), target.to_string()]).stdout(Stdio::null()).stderr(Stdio::null()).status().map(|s| s.success()).unwrap_or(false) };
+            ctx.direct_evaluations += 1;
+            if survives(2000) {
+                ctx.count(&format!("debug-profile probe {shape}/{target}: depth 2000 survives"));
+                continue;
+            }
+            let (mut lo, mut hi) = (1usize, 2000usize); // lo survives (assumed), hi does not
+            while hi - lo > 1 {
+                let mid = (lo + hi) / 2;
+                ctx.direct_evaluations += 1;
+                if survives(mid) { lo = mid } else { hi = mid }
+            }
+            any = true;
+            ctx.count(&format!("debug-profile probe {shape}/{target}: largest surviving depth {lo}"));
+            ctx.fail("F51:debug-build-stack-within-default-depth", format!("unoptimised build, default options, 8 MiB stack: a document nested {hi} levels deep (shape {shape}, target {target}) aborts the process with a stack overflow although max_depth = 2000 admits it; the largest surviving depth is {lo}"), json!({"kind": "debug_stack_probe", "shape": shape, "target": target, "depth": hi}));
+        }
+        ctx.witness("F51", any, "debug-profile build: nesting well inside the default max_depth exhausts an 8 MiB stack");
+    } else {
+        ctx.notes.push("debug-profile stack probe binary not found: probes skipped".into());
+    }
     ctx.notes.push(format!("target types: {}", TYPE_NAMES.join(" | ")));
     ctx.notes.push(format!("option vectors: {}", OPT_NAMES.join(" | ")));
     ctx.notes.push(format!("entry points: {}", ENTRY_NAMES.join(" | ")));
